@@ -143,7 +143,11 @@ Late == /\ phase = "idle" /\ l <= Len(Trace) /\ Trace[l].ev \in {"nb", "ne", "tm
         /\ l' = l + 1
         /\ UNCHANGED <<mode, bad, pan, sub, body, fin, lst, ch, num, inCS, cLocked, waiting, held, collected, all, syncT, ncoll, phase>>
 
-Next == Case \/ Submit \/ NodeBegin \/ NodeEnd \/ Push \/ PushDone \/ Handoff \/ WaitBegin \/ ChanRecv \/ Recv \/ RefillEv \/ End \/ Late
+\* a TLC-generated order of critical sections could not be followed by the real run (recorded, judged by the driver as drift)
+SchedNote == /\ IsEvent("sched.timeout")
+             /\ UNCHANGED <<mode, bad, pan, sub, body, fin, lst, ch, num, inCS, cLocked, waiting, held, collected, all, syncT, ncoll, phase>>
+
+Next == SchedNote \/ Case \/ Submit \/ NodeBegin \/ NodeEnd \/ Push \/ PushDone \/ Handoff \/ WaitBegin \/ ChanRecv \/ Recv \/ RefillEv \/ End \/ Late
 Spec == Init /\ [][Next]_vars
 
 HW == TLCSet(1, IF l > TLCGet(1) THEN l ELSE TLCGet(1))
